@@ -23,7 +23,7 @@ package lockedfile
 //@ pure func modeRegular(m int) bool
 //@ extern (*os.File).Stat(f) (fi, err)
 //@   pure
-//@   ensures err == nil ==> infoRegular(fi) == regularFile(fdPath[f])
+//@   ensures err == nil ==> fi != nil && infoRegular(fi) == regularFile(fdPath[f])
 //@ extern (io/fs.FileInfo).Mode(fi) (r)
 //@   pure
 //@   ensures modeRegular(r) == infoRegular(fi)
@@ -69,6 +69,7 @@ package lockedfile
 
 //@ func Open
 //@   names (f, err)
+//@   ensures err != nil ==> f == nil
 //@   ensures fsExists == old(fsExists) && fsData == old(fsData) && fsSize == old(fsSize)
 //@   ensures old(fsExists)[name] ==> fsSize[name] == old(fsSize)[name]
 //@   modifies fsExists, fsData, fsSize, fsBytes, fdPath, fdMode, fdClosed, failBudget, F_S_lockedfile_File_*, gCleanup
@@ -78,6 +79,7 @@ package lockedfile
 
 //@ func Create
 //@   names (f, err)
+//@   ensures err != nil ==> f == nil
 //@   modifies fsExists, fsData, fsSize, fsBytes, fdPath, fdMode, fdClosed, failBudget, F_S_lockedfile_File_*, gCleanup
 //@   ensures err == nil ==> f != nil && fresh(f) && !f.closed && fresh(f.osFile.File) && !fdClosed[f.osFile.File] && fdPath[f.osFile.File] == sid(name) && fdMode[f.osFile.File] == 2
 //@   ensures forall g int {fdMode[g]} {fdClosed[g]} :: !fresh(g) ==> fdMode[g] == old(fdMode)[g] && fdClosed[g] == old(fdClosed)[g]
@@ -129,6 +131,8 @@ package lockedfile
 // length relation, an error leaves the previous contents in place; success publishes
 // exactly what t returned. Every content access happens under the exclusive lock.
 //@ func Transform
+//@   at call lockedfile.Edit#1: bind gOpenedTransform = f
+//@   ensures gOpenedTransform != nil ==> fdMode[gOpenedTransform.osFile.File] == 0 && fdClosed[gOpenedTransform.osFile.File]
 //@   requires failBudget == 1
 //@   callee t(b) (r, e): modifies new bytes; bind tOut = r
 //@   modifies fsExists, fsData, fsSize, fsBytes, fdPath, fdMode, fdClosed, failBudget, F_S_lockedfile_File_*, gCleanup
@@ -142,6 +146,8 @@ package lockedfile
 // Read: the contents are read under the shared lock, from a descriptor opened by this call.
 //@ func Read
 //@   names (data, err)
+//@   at call lockedfile.Open#1: bind gOpenedRead = f
+//@   ensures gOpenedRead != nil ==> fdMode[gOpenedRead.osFile.File] == 0 && fdClosed[gOpenedRead.osFile.File]
 //@   ensures fsExists == old(fsExists) && fsData == old(fsData) && fsSize == old(fsSize)
 //@   modifies fsExists, fsData, fsSize, fsBytes, fdPath, fdMode, fdClosed, failBudget, F_S_lockedfile_File_*, gCleanup
 //@   at call io.ReadAll#1: requires fdMode[f.osFile.File] == 1 && !fdClosed[f.osFile.File] && fdPath[f.osFile.File] == sid(name)
@@ -159,12 +165,16 @@ package lockedfile
 // stripped from the open and applied after the lock is held: see openFile).
 //@ func Write
 //@   names (err)
+//@   at call lockedfile.OpenFile#1: bind gOpenedWrite = f
+//@   ensures gOpenedWrite != nil ==> fdMode[gOpenedWrite.osFile.File] == 0 && fdClosed[gOpenedWrite.osFile.File]
 //@   modifies fsExists, fsData, fsSize, fsBytes, fsWrites, fdPath, fdMode, fdClosed, failBudget, F_S_lockedfile_File_*, gCleanup
 //@   ensures err == nil ==> fsWrites[name] > old(fsWrites)[name]
 //@   ensures forall p int {fsWrites[p]} :: p != sid(name) ==> fsWrites[p] == old(fsWrites)[p]
 //@   at call io.Copy#1: requires fdMode[f.osFile.File] == 2 && !fdClosed[f.osFile.File] && fdPath[f.osFile.File] == sid(name)
 //@   ensures forall p int {fsBytes[p]} {fsSize[p]} :: p != sid(name) ==> fsBytes[p] == old(fsBytes)[p] && fsSize[p] == old(fsSize)[p]
 
+// (Read, Write and Transform leave no lock behind: the file they opened is unlocked and closed
+// again on every return)
 // Mutex.Lock: the lock is an exclusive lock on a fresh descriptor of mu.Path; the
 // returned unlock function only unlocks and closes that descriptor (it does not
 // touch the file's name or contents).
